@@ -120,6 +120,7 @@ static void srv_build_answer_rrs(sdns_out_t *o, const sdns_query_t *q, uint32_t 
               sdns_put16(o, serial & 0xffff);
             } else {
               uint8_t a6[16] = { 0xfd, 0x5e, 0, 0, 0, 0, 0, 0, 0, 0, 0, 0, 0, 0, 0, 0 };
+              a6[2]          = (uint8_t)((k % 3 == 2) ? 1 : 0); /* every third address is in fd5e:100::/24 */
               a6[11]         = (uint8_t)(k >> 8);
               a6[12]         = (uint8_t)k;
               a6[14]         = (uint8_t)(serial >> 8);
@@ -276,8 +277,45 @@ static uint32_t srv_build(int srvidx, int fd, const sdns_query_t *q, const srv_p
     case SA_WRONGNAME:
       {
         size_t i;
+        int    how = (int)vh_below(&sim_rng, 5);
         forged = 1;
         dev |= 2;
+        if (how == 1 && qnl >= 2 && qnl + 10 <= sizeof(qn)) {
+          /* the asked name with more labels behind it: www.example.com.evil.test */
+          static const uint8_t tail[] = { 4, 'e', 'v', 'i', 'l', 4, 't', 'e', 's', 't', 0 };
+          memcpy(qn + qnl - 1, tail, sizeof(tail));
+          qnl = qnl - 1 + sizeof(tail);
+          break;
+        }
+        if ((how == 2 || how == 3) && qnl >= 3) {
+          /* last label one letter longer (www.example.comx) / one letter shorter */
+          size_t off = 0, last = 0;
+          while (off < qnl && qn[off] != 0) {
+            last = off;
+            off += (size_t)qn[off] + 1;
+          }
+          if (how == 2 && qn[last] < 63 && qnl + 1 <= sizeof(qn)) {
+            qn[last]++;
+            qn[qnl - 1] = 'x';
+            qn[qnl]     = 0;
+            qnl++;
+            break;
+          }
+          if (how == 3 && qn[last] >= 2) {
+            qn[last]--;
+            qn[qnl - 2] = 0;
+            qnl--;
+            break;
+          }
+        }
+        if (how == 4 && qnl >= 3) {
+          /* the last letter instead of the first */
+          size_t j2 = qnl - 2;
+          if (isalpha(qn[j2])) {
+            qn[j2] = (uint8_t)((tolower(qn[j2]) == 'x') ? 'y' : 'x');
+            break;
+          }
+        }
         for (i = 1; i < qnl; i++) {
           if (isalpha(qn[i])) {
             qn[i] = (uint8_t)((tolower(qn[i]) == 'x') ? 'y' : 'x');
@@ -598,6 +636,22 @@ static void srv_receive(int srvidx, int fd, int is_tcp, const uint8_t *msg, size
     sim_note("zerolen_next_to_reply");
   }
   srv_send_pkt(srvidx, fd, is_tcp, srv_out.b, srv_out.len, serial, d, pl.action == SA_WRONGADDR ? -1 : srvidx);
+  if (!is_tcp && s->dup_copies > 1 &&
+      (pl.action == SA_TC || pl.action == SA_SERVFAIL || pl.action == SA_REFUSED || pl.action == SA_FORMERR_NOOPT)) {
+    /* (not BADCOOKIE: every copy of that one that reaches the re-sent query is a bad-cookie reply in its own right) */
+    /* the same datagram again (a retransmitting middlebox, a server that answers every copy of a query it saw):
+     * the copies arrive with the original */
+    int k;
+    for (k = 1; k < s->dup_copies; k++) {
+      uint32_t s2 = sim_new_serial(srvidx, fd, q.id, pl.action, 0, 0, txidx);
+      if (s2 != 0) {
+        sim_pktinfo[s2 - 1].rcode = sim_pktinfo[serial - 1].rcode;
+        sim_pktinfo[s2 - 1].tc    = sim_pktinfo[serial - 1].tc;
+        srv_send_pkt(srvidx, fd, 0, srv_out.b, srv_out.len, s2, d, srvidx);
+        sim_note("reply_sent_again_with_the_original");
+      }
+    }
+  }
   if (is_tcp && s->tcp_close_after_answer) {
     /* one answer per connection (a server that does not keep streams open): the close follows the answer bytes
      * at once or a little later - either way the answer was sent in full and must be used */
